@@ -27,7 +27,10 @@ RULE = ("one run = one ExposeSensor with seeded cooldown / periodic_send / respo
 REAL = ["xknx.devices.ExposeSensor", "xknx.remote_value.RemoteValueSensor", "xknx.core.TaskRegistry/Task",
         "xknx.core.TelegramQueue", "xknx.cemi.CEMIHandler"]
 STUB = ["KNXIPInterface (StubInterface, sends succeed after 2 ms, confirmation 3 ms later)", "loop (SimLoop)"]
-ASSUMPTIONS = ["value telegrams 'caused by updates' = GroupValueWrite telegrams the sensor enqueues while periodic_send is 0",
+ASSUMPTIONS = ["backlog mode (one seed in 10): rate_limit 20 and a burst of other outgoing telegrams longer than the cooldown; only "
+               "there the spacing is judged where the telegrams reach the bus (behind the rate limiter) - everywhere else at "
+               "creation",
+               "value telegrams 'caused by updates' = GroupValueWrite telegrams the sensor enqueues while periodic_send is 0",
                "a skip_unchanged set whose payload equals the last one set is not an update",
                "reads after an external write on the address are unjudged until the next set/initialize (which value is 'most "
                "recent' is then ambiguous)",
@@ -63,7 +66,17 @@ def gen(seed: int, tier: str) -> dict[str, Any]:
     if rng.random() < 0.6:
         t += ref * rng.choice([0.3, 1.2])
         ops.append({"t": round(t, 6), "op": "set", "v": rng.choice([1, 2, 9]), "g": "final"})
-    return {"seed": seed, "tier": "S", "config": {"c": c, "p": p, "respond": rng.random() < 0.8, "batch": 1}, "ops": ops}
+    cfg = {"c": c, "p": p, "respond": rng.random() < 0.8, "batch": 1}
+    if seed % 10 == 3 and c:
+        # the rate limited outgoing queue has a backlog (other devices sending at the same time): the value telegrams leave
+        # the queue later than they were created. Updates only, no periodic sending; judged where the telegrams reach the bus
+        cfg.update(p=0, rate_limit=20, backlog={"t": round(max(0.0, ops[0]["t"] - rng.choice([0.0, 0.01, 0.2])), 6),
+                                                "n": int(20 * c * rng.choice([0.5, 1.5, 2.5]))})
+        for o in ops:
+            if o["op"] not in ("set", "set_skip"):
+                o["op"] = "set"
+                o["v"] = rng.choice([1, 2, 3])
+    return {"seed": seed, "tier": "S", "config": cfg, "ops": ops}
 
 
 def run(plan: dict[str, Any]) -> dict[str, Any]:
@@ -74,7 +87,8 @@ def run(plan: dict[str, Any]) -> dict[str, Any]:
     c, p = cfg["c"], cfg["p"]
     R = Run(plan, max_time=100000.0)
     loop = R.loop
-    xknx, stub, q = make_xknx(R)
+    xknx, stub, q = make_xknx(R, rate_limit=cfg.get("rate_limit", 0))
+    bus_w: list[tuple[float, int]] = []          # (t_processed, payload) of GroupValueWrite telegrams of the sensor on the bus
     puts: list[tuple[float, str, int]] = []      # (t, "write"|"response", payload)
     bus: list[tuple[float, int]] = []            # (t_processed, payload) of value telegrams seen on the bus for GA
     orig_put = q.put_nowait
@@ -93,6 +107,8 @@ def run(plan: dict[str, Any]) -> dict[str, Any]:
         nm = type(tg.payload).__name__
         if nm in ("GroupValueWrite", "GroupValueResponse"):
             bus.append((loop.time(), tg.payload.value.value[0]))
+            if nm == "GroupValueWrite" and tg.direction.name == "OUTGOING":
+                bus_w.append((loop.time(), tg.payload.value.value[0]))
 
     async def main():
         dev = ExposeSensor(xknx, "ex", group_address=GroupAddress(GA), value_type="percentU8", cooldown=c,
@@ -124,6 +140,17 @@ def run(plan: dict[str, Any]) -> dict[str, Any]:
                 return
             raise RuntimeError("operation suspended")    # none of the operations awaits anything that suspends
 
+        if cfg.get("backlog"):
+            from xknx.dpt import DPTBinary
+            from xknx.telegram import Telegram
+            from xknx.telegram.apci import GroupValueWrite
+
+            def burst():
+                for j in range(cfg["backlog"]["n"]):
+                    xknx.telegrams.put_nowait(Telegram(destination_address=GroupAddress(GA + 1 + (j & 3)),
+                                                       payload=GroupValueWrite(DPTBinary(j & 1))))
+                R.extra_faults["outgoing_queue_backlog"] += 1
+            loop.at(t0 + cfg["backlog"]["t"], burst, label="op")
         ref_ = c if c else 1.0
         when_prev = None
         for op in plan["ops"]:
@@ -139,7 +166,7 @@ def run(plan: dict[str, Any]) -> dict[str, Any]:
                 loop.at(when, (lambda o=op: loop.soon_iters(o["iters"], lambda: run_now(do(o)), label="op")), label="op")
             else:
                 loop.at(when, (lambda o=op: loop.create_task(do(o))), label="op")
-        await asyncio.sleep(plan["ops"][-1]["t"] + max(c, p, 1.0) * 3 + 1.0)
+        await asyncio.sleep(plan["ops"][-1]["t"] + max(c, p, 1.0) * 3 + 1.0 + (cfg["backlog"]["n"] / 20.0 if cfg.get("backlog") else 0.0))
         await xknx.stop()
 
     R.execute(main())
@@ -207,6 +234,16 @@ def run(plan: dict[str, Any]) -> dict[str, Any]:
                           f"value telegrams queued at {t1 - t0:.6f} ({p1}) and {t2 - t0:.6f} ({p2}), cooldown {c}")
         if len(writes) >= 2:
             nontrivial = True
+    if cfg.get("backlog"):
+        # where the telegrams reach the bus (behind the rate limiter): still at least the cooldown apart
+        for (t1, p1), (t2, p2) in zip(bus_w, bus_w[1:]):
+            if t2 - t1 < c - 1e-9:
+                R.violate("C41.cooldown", "on-bus-closer-than-cooldown:outgoing-queue-backlog",
+                          f"value telegrams reached the bus at {t1 - t0:.6f} ({p1}) and {t2 - t0:.6f} ({p2}), cooldown {c}; "
+                          f"created at {[round(tp - t0, 6) for (tp, kind, pl) in puts]}")
+        R.check_escapes("C41.no-escape")
+        return R.result(nontrivial=len(bus_w) >= 2, abstract=[("backlog", bool(c)), [(o["op"], o["g"]) for o in ops]])
+
     def deemed_values(limit):
         """Values that may count as 'last on the bus' at `limit` (initialize_value counts as sent; entries closer
         than 20 ms to each other are order-ambiguous)."""
